@@ -52,6 +52,18 @@ func (s *Service) ProxyRequestToEndpointsWithRetry(ctx context.Context, w http.R
 func (s *Service) proxyToSingleEndpoint(ctx context.Context, w http.ResponseWriter, r *http.Request, endpoint *domain.Endpoint, stats *ports.RequestStats, rlog logger.StyledLogger) error {
 	// one unit per attempt, like the success/failure counters: total = successful + failed
 	s.IncrementRequests()
+
+	// A panic while relaying (e.g. a backend status code that ResponseWriter.WriteHeader rejects)
+	// unwinds through here: count the attempt as failed so that every attempt is recorded exactly once.
+	outcomeRecorded := false
+	defer func() {
+		if rec := recover(); rec != nil {
+			if !outcomeRecorded {
+				s.RecordFailure(ctx, endpoint, time.Since(stats.StartTime), fmt.Errorf("panic during proxy attempt: %v", rec))
+			}
+			panic(rec)
+		}
+	}()
 	stats.EndpointName = endpoint.Name
 
 	// Check circuit breaker first
@@ -157,6 +169,7 @@ func (s *Service) proxyToSingleEndpoint(ctx context.Context, w http.ResponseWrit
 
 	// We've successfully written the response
 	duration := time.Since(stats.StartTime)
+	outcomeRecorded = true
 	if streamErr != nil {
 		// the client went away mid-stream (context.Canceled): nothing to report to it, but not a delivered response either
 		s.RecordFailure(ctx, endpoint, duration, streamErr)
